@@ -287,7 +287,7 @@ def check(an: Analysis) -> None:
     for n in g.nodes:
         if n.kind == "call" and an.callee(f, n.ast) in ("asyncio.AbstractEventLoop.create_future", "asyncio.AbstractEventLoop.create_task", "asyncio.AbstractEventLoop.call_later") and isinstance(n.ast.func, ast.Attribute):  # type: ignore[union-attr]
             lo_ = d.origins(n.ast.func.value)  # type: ignore[union-attr]
-            if any(o.startswith("attr:self.") for o in lo_) or not any(o in ("call:asyncio.get_running_loop", "call:asyncio.get_event_loop") for o in lo_):
+            if not lo_ or not lo_ <= {"call:asyncio.get_running_loop", "call:asyncio.get_event_loop"}:
                 ob.fail(f, n.ast, "the call's future / task / timer are not created on the loop running this call (a loop remembered on the wrapper object outlives the loop it was taken from: later calls fail or never start the function)")
     rets = [n for n in g.nodes if n.kind == "return"]
     for r in rets:
